@@ -649,6 +649,31 @@ class Walker:
         f = self.fold(t)
         if f is not None:
             return f
+        # a conjunction with a conjunct known false is false, a disjunction with one known true is
+        # true (the order of evaluation does not matter for the truth value of tests without effects)
+        if isinstance(t, ast.BoolOp) and getattr(self, '_truth_depth', 0) < 3:
+            self._truth_depth = getattr(self, '_truth_depth', 0) + 1
+            try:
+                vals = [self.truth(v, st) for v in t.values]
+            finally:
+                self._truth_depth -= 1
+            if isinstance(t.op, ast.And):
+                if any(v is False for v in vals):
+                    return False
+                if all(v is True for v in vals):
+                    return True
+            else:
+                if any(v is True for v in vals):
+                    return True
+                if all(v is False for v in vals):
+                    return False
+        if isinstance(t, ast.Compare) and len(t.ops) == 1 and isinstance(t.left, ast.Constant) and isinstance(t.comparators[0], ast.Constant) \
+                and isinstance(t.ops[0], (ast.Eq, ast.NotEq, ast.Lt, ast.LtE, ast.Gt, ast.GtE)):
+            try:
+                a_, b_ = t.left.value, t.comparators[0].value
+                return {ast.Eq: a_ == b_, ast.NotEq: a_ != b_, ast.Lt: a_ < b_, ast.LtE: a_ <= b_, ast.Gt: a_ > b_, ast.GtE: a_ >= b_}[type(t.ops[0])]
+            except TypeError:
+                pass
         ct = canon(t)
         nt = canon(negate(t))
         for g, pol in st.guards:
@@ -1161,7 +1186,7 @@ class _Ev:
         if k in self.st.heap and self.w.read_heap:
             return copy.deepcopy(self.st.heap[k])
         if k in self.w.const_heap and isinstance(e.ctx, ast.Load):
-            return copy.deepcopy(self.w.const_heap[k])
+            return self._fold_known(copy.deepcopy(self.w.const_heap[k]))
         # a class-level constant that no instance ever overrides
         cc = getattr(self.w, 'class_constant', None)
         scls = getattr(self.w, 'self_cls', None) or self.w.cls
@@ -1204,6 +1229,21 @@ class _Ev:
                         key = key.args[0]
                     return ast.IfExp(test=key, body=byk[True], orelse=byk[False])
         return new
+
+    def _fold_known(self, x):
+        """a (substituted) value: conditional expressions whose test is decided on this path are
+        replaced by the branch taken"""
+        if isinstance(x, ast.IfExp):
+            known = self.w.truth(x.test, self.st)
+            if known is True:
+                return self._fold_known(x.body)
+            if known is False:
+                return self._fold_known(x.orelse)
+            b_, o_ = self._fold_known(x.body), self._fold_known(x.orelse)
+            if canon(b_) == canon(o_):
+                return b_              # both branches are the same expression
+            return ast.IfExp(test=x.test, body=b_, orelse=o_)
+        return x
 
     def v_IfExpValue(self, d, key):
         def pick(x):
